@@ -494,9 +494,15 @@ class Folder:
         elif isinstance(f, ast.Attribute) and isinstance(f.value, ast.Name) and f.value.id in ("np", "numpy", "math"):
             name = "np." + f.attr
         if name is not None and hasattr(self, "c_" + name.replace(".", "_")):
-            if any(isinstance(a, ast.Starred) for a in n.args):
-                raise Refuse("starred call")
-            args = [self.ev(a, env) for a in n.args]
+            args = []
+            for a in n.args:
+                if isinstance(a, ast.Starred):
+                    v = self.ev(a.value, env)
+                    if not isinstance(v, (list, tuple)):
+                        raise Refuse("starred call of a non-sequence")
+                    args.extend(v)
+                else:
+                    args.append(self.ev(a, env))
             kw = {k.arg: self.ev(k.value, env) for k in n.keywords if k.arg}
             return getattr(self, "c_" + name.replace(".", "_"))(args, kw)
         if isinstance(f, ast.Attribute) and not (isinstance(f.value, ast.Name) and f.value.id in ("np", "numpy", "math", "darsia", "da")):
@@ -645,6 +651,22 @@ class Folder:
 
     def c_np_zeros(self, a, kw):
         return self._full(a[0], 0)
+
+    def c_np_full(self, a, kw):
+        val = a[1] if len(a) > 1 else kw.get("fill_value")
+        if isinstance(val, bool) or not is_num(val):
+            raise Refuse("np.full fill value")
+        return self._full(a[0], val)
+
+    def c_np_where(self, a, kw):
+        if len(a) != 3:
+            raise Refuse("np.where form")
+        c, x, y = a
+        if isinstance(c, bool):
+            return x if c else y
+        if isinstance(c, (list, tuple)) and all(isinstance(v, bool) for v in c) and not isinstance(x, (list, tuple, Arr)) and not isinstance(y, (list, tuple, Arr)):
+            return [x if v else y for v in c]
+        raise Refuse("np.where operands")
 
     def _full(self, shape, val):
         if isinstance(shape, int):
